@@ -39,7 +39,11 @@ def _eval(args):
         with contextlib.redirect_stdout(io.StringIO()):
             res = _machine(prop).execute(cfg)
         if res.violations:
-            return res.violations[0].to_json(), res.decision_digest()
+            from . import findings
+            v, _ = findings.first_unknown(findings.load(), [x.to_json() for x in res.violations], cfg)
+            if v is None:      # only known findings: when minimising a known finding itself, fall back to it
+                v = res.violations[0].to_json()
+            return v, res.decision_digest()
         return None, None
     except BaseException:  # noqa: BLE001
         return None, None
@@ -143,7 +147,12 @@ def replay(path: str) -> tuple[dict | None, dict]:
     with open(path) as f:
         rec = json.load(f)
     res = _machine(rec["property"]).execute(rec["config"])
-    got = res.violations[0].to_json() if res.violations else None
+    got = None
+    if res.violations:
+        # the record the file expects if it is among the run's violations, else the first one
+        vs = [v.to_json() for v in res.violations]
+        got = next((v for v in vs if v == rec["violation"]), None) or \
+            next((v for v in vs if v.get("signature") == rec["violation"].get("signature")), None) or vs[0]
     return got, rec
 
 
